@@ -142,6 +142,8 @@ type Cmd struct {
 	Succ  []Op   `json:"succ"`
 	Fail  []Op   `json:"fail"`
 	Cmds  []Cmd  `json:"cmds"`
+	// Sli: as a command of a SEQUENCE built by a replication worker: the leader index it carries, plus one (0 = none)
+	Sli int `json:"sli"`
 }
 
 // MarshalJSON makes sure sequences are [] and never null.
@@ -293,7 +295,7 @@ func (c Cmd) PB(table string, li int64) *regattapb.Command {
 	case "SEQ":
 		p.Type = regattapb.Command_SEQUENCE
 		for _, s := range c.Cmds {
-			p.Sequence = append(p.Sequence, s.PB(table, -1))
+			p.Sequence = append(p.Sequence, s.PB(table, int64(s.Sli)-1))
 		}
 	case "DUMMY":
 		p.Type = regattapb.Command_DUMMY
